@@ -54,7 +54,7 @@ Step ==
             /\ Check(Len(e.st.buf) <= W, "C43", "buffer-exceeds-window", W, Len(e.st.buf))
             /\ UNCHANGED <<conf, req, dconf>>
        [] e.e = "fin" ->
-            /\ Check(e.done, "C42", "not-every-produced-message-confirmed", e.produced, conf)
+            /\ Check(e.done \/ e.free, "C42", "not-every-produced-message-confirmed", e.produced, conf)
             /\ Check(~e.done \/ (conf = e.produced /\ Len(dconf) = e.produced), "C42", "confirmation-count", e.produced, Len(dconf))
             /\ UNCHANGED <<conf, req, dconf>>
        [] OTHER -> UNCHANGED <<conf, req, dconf>>
